@@ -160,3 +160,25 @@ Section Genuine.
     unfold final_rule. destruct st' as [|[| |b] [|y r]]; exact H.
   Qed.
 End Genuine.
+
+(* the lock the implementation reports (a relative::LockTime: [rel_norm t]) and the script's operand
+   [t] denote the same CSV condition, and the same validity *)
+Lemma rel_norm_type t : N.land (rel_norm t) SEQ_TYPE = N.land t SEQ_TYPE.
+Proof. unfold rel_norm. rewrite <- N.land_assoc. reflexivity. Qed.
+Lemma rel_norm_mask t : N.land (rel_norm t) SEQ_MASK = N.land t SEQ_MASK.
+Proof. unfold rel_norm. rewrite <- N.land_assoc. reflexivity. Qed.
+Lemma rel_norm_disable t : N.land (rel_norm t) SEQ_DISABLE = 0.
+Proof. unfold rel_norm. rewrite <- N.land_assoc. change (N.land 4259839 SEQ_DISABLE) with 0. apply N.land_0_r. Qed.
+
+Lemma rel_norm_equiv (e : env) (t : N) :
+  N.land t SEQ_DISABLE = 0 ->
+  check_sequence e (Z.of_N (rel_norm t)) = check_sequence e (Z.of_N t) /\
+  (cvalid e (CsOlder (rel_norm t)) <-> cvalid e (CsOlder t)).
+Proof.
+  intros Hd. split.
+  - unfold check_sequence. rewrite !N2Z.id.
+    replace (0 <=? Z.of_N (rel_norm t))%Z with true by (symmetry; apply Z.leb_le; lia).
+    replace (0 <=? Z.of_N t)%Z with true by (symmetry; apply Z.leb_le; lia).
+    rewrite rel_norm_type, rel_norm_mask, rel_norm_disable, Hd. reflexivity.
+  - cbn [cvalid]. rewrite rel_norm_type, rel_norm_mask. reflexivity.
+Qed.
